@@ -60,6 +60,7 @@ def parseValidator (s : String) : Option (Nat → Val → Except Exc Val) :=
   | ["id"] => some (fun _ x => .ok x)
   | ["mod7"] => some (fun _ x => .ok (if x ≥ 100 then x else x % 7))
   | ["rejneg"] => some (fun _ x => if x < 0 then .error .traitError else .ok x)
+  | ["oshift"] => some (fun _ x => .ok x)         -- an 'original value' trait: what is stored is the assigned value
   | ["int"] => some (fun _ x => .ok x)            -- a real `Int` trait: every value of the non-special pool is an int
   | ["range", lo, hi] =>                           -- a real `Range(lo, hi)` trait (C fast validator)
     match lo.toInt?, hi.toInt? with
@@ -81,21 +82,30 @@ def mkEnv (vs : List (Nat → Val → Except Exc Val)) : Env :=
   { validate := fun vid k x => match vs[vid]? with | some v => v k x | none => .ok x,
     eqv := fun a b => eqClass a == eqClass b }
 
-def parseOp (s : String) : Option Op :=
+/-- A history step of the line protocol: an operation of the model, or `cp` — the history continues on a
+copy (`Pool.restore`). -/
+inductive DOp where
+  | op (o : Op)
+  | copy (which : Option ObjId)
+
+def parseOp (s : String) : Option DOp :=
   match words s with
-  | ["st", o, n, v] => do pure (.set (← o.toNat?) (nm n) (← int? v))
-  | ["dl", o, n] => do pure (.del (← o.toNat?) (nm n))
-  | ["rd", o, n] => do pure (.read (← o.toNat?) (nm n))
+  | ["st", o, n, v] => do pure (.op (.set (← o.toNat?) (nm n) (← int? v)))
+  | ["dl", o, n] => do pure (.op (.del (← o.toNat?) (nm n)))
+  | ["rd", o, n] => do pure (.op (.read (← o.toNat?) (nm n)))
   | ["sw", o, t] => do
     let t ← if t = "N" then some none else t.toNat?.map some
-    pure (.swap (← o.toNat?) t)
+    pure (.op (.swap (← o.toNat?) t))
+  | ["cp", "A", "p"] => some (.copy none)
+  | ["cp", o, "c"] => do pure (.copy (some (← o.toNat?)))
   | _ => none
 
-def opObjs : Op → List Nat
-  | .set o _ _ => [o]
-  | .del o _ => [o]
-  | .read o _ => [o]
-  | .swap o t => o :: t.toList
+def opObjs : DOp → List Nat
+  | .op (.set o _ _) => [o]
+  | .op (.del o _) => [o]
+  | .op (.read o _) => [o]
+  | .op (.swap o t) => o :: t.toList
+  | .copy w => w.toList
 
 /-- Order of events in the canonical output: (object, name, old, new). -/
 def evLe (a b : Event) : Bool :=
@@ -134,14 +144,20 @@ def showOut (s : StepOut) : String :=
   s!"{res} E[{evs}] X{s.hookExc} S[{showSnapshot s.pool}] F[{showForwarders s.pool}]"
 
 /-- The history with the cycle guard: an operation that would close a cycle is skipped. -/
-def runGuarded (E : Env) : Nat → Pool → List Op → List String
+def runGuarded (E : Env) : Nat → Pool → List DOp → List String
   | _, _, [] => []
-  | k, p, op :: ops =>
-    match op with
-    | .swap o t =>
+  | k, p, dop :: ops =>
+    match dop with
+    | .copy w =>
+      if (match w with | some o => isDelegateOfOther p o | none => false) then "skip" :: runGuarded E (k + 1) p ops
+      else if p.restoreFails w then showOut (fail p .traitError) :: runGuarded E (k + 1) p ops
+      else
+        let p' := p.restore w
+        showOut { pool := p', res := .ok none } :: runGuarded E (k + 1) p' ops
+    | .op (.swap o t) =>
       if wouldCycle p o t then "skip" :: runGuarded E (k + 1) p ops
-      else let s := step E k p op; showOut s :: runGuarded E (k + 1) s.pool ops
-    | _ => let s := step E k p op; showOut s :: runGuarded E (k + 1) s.pool ops
+      else let s := step E k p (.swap o t); showOut s :: runGuarded E (k + 1) s.pool ops
+    | .op op => let s := step E k p op; showOut s :: runGuarded E (k + 1) s.pool ops
 
 def handle (line : String) : String :=
   match (clean line).splitOn "|" with
